@@ -235,8 +235,8 @@ func stream(a lib.Args, x *runner) {
 		} else {
 			p = g.Program()
 		}
-		if p.ShadowsSelfName() || p.UsesAppend() || rebindsDefnName(p) {
-			continue // the tail call by name (known finding of C02/C03) is nor append sharing a backing array, is this property's subject
+		if p.ShadowsSelfName() || p.UsesAppend() || usesName(p, "concat") || rebindsDefnName(p) {
+			continue // the tail call by name (known finding of C02/C03) is nor append / concat sharing a backing array (C02 findings append-aliasing, concat-aliasing), is this property's subject
 		}
 		nl := Lazify(p, rng)
 		if nl > 0 {
@@ -387,4 +387,8 @@ func rebindsDefnName(p *Program) bool {
 		}
 	})
 	return bad
+}
+
+func usesName(p *Program, name string) bool {
+	return p.Has(func(n *Node) bool { return n.K == KVar && n.Name == name })
 }
